@@ -1,7 +1,7 @@
 (* C06 — keystream alignment: the read state machine only ever decrypts at the frontier. *)
 From Coq Require Import NArith List Bool Arith Lia.
 Import ListNotations.
-From LTV.C06 Require Import ParamsGen Model ProofsInv ProofsKs.
+From LTV.C06 Require Import ParamsProbe Model ProofsInv ProofsKs.
 
 Definition Fr (s : hst) : Prop := dstart s + didx s = nread s.
 
